@@ -18,41 +18,66 @@ theorem Layout.lex_cons (l : Lex) {ls : List Lex} {b : Bytes} (h : Layout ls b) 
   have := Layout.cons [] l ls b rfl h
   simpa using this
 
+/-- a string of the strict mode is a string of the permissive mode -/
+theorem jchar_weaken {s : Bool} {c : Bytes} (h : JChar s c) : JChar false c := by
+  cases h with
+  | plain c h1 h2 h3 h4 => exact JChar.plain c h1 h2 h3 h4
+  | utf8 p hp => exact JChar.utf8 _ hp
+  | raw c _ hc => exact JChar.raw c rfl hc
+  | esc c hc => exact JChar.esc c hc
+  | uni a b c d ha hb hc hd _ => exact JChar.uni a b c d ha hb hc hd (by simp)
+  | pair a b c d e f g k ha hb hc hd he hf hg hk h1 h2 => exact JChar.pair a b c d e f g k ha hb hc hd he hf hg hk h1 h2
+
+theorem jstring_weaken {s : Bool} {p : Bytes} (h : JString s p) : JString false p := by
+  obtain ⟨body, hb, rfl⟩ := h
+  refine ⟨body, ?_, rfl⟩
+  induction hb with
+  | nil => exact JChars.nil
+  | cons c r hc _ ih => exact JChars.cons c r (jchar_weaken hc) ih
+
 section
-variable (key : Bytes → Bytes)
+variable (o : GOpts) (key : Bytes → Bytes)
 
 /-- what the induction builds for a value `v` at depth `d`: a tree whose lexemes lay out as `v` -/
 def Built (d : Nat) (v : Bytes) (t : JV) : Prop :=
-  AtomsOK t = true ∧ (∀ k ∈ t.toks, k.valid = true) ∧ depthOK t d = true ∧
+  AtomsOK t = true ∧ (∀ k ∈ t.toks, k.valid = true) ∧ depthOK t d = true ∧ StrsOK o t.toks ∧ DupOK o (dupT key t) ∧
   ∀ (R : List Lex) (X : Bytes), Layout R X → Layout (lexT t ++ R) (v ++ X)
 
-theorem built_atom (d : Nat) (k : Tok) (hk : atomOK k = true) (hv : k.valid = true) : Built d k.bytes (.atom k) :=
+theorem built_atom (d : Nat) (k : Tok) (hk : atomOK k = true) (hv : k.valid = true)
+    (hs : ∀ raw, k = .str raw → JString o.strict raw) : Built o key d k.bytes (.atom k) :=
   ⟨by simpa [AtomsOK] using hk, by simpa [JV.toks] using hv, rfl,
+   fun raw hm => hs raw (by simp only [JV.toks, List.mem_singleton] at hm; exact hm.symm), Or.inr rfl,
    fun R X h => by simpa [lexT, Lex.bytes] using Layout.lex_cons (.tok k) h⟩
 
 /-- the elements after the first: `, e` repeatedly, then `]` -/
 theorem build_tailL (d : Nat) : ∀ (more : List (Bytes × Bytes × Bytes)),
-    (∀ e ∈ more, JWs e.1 ∧ JWs e.2.2) → (∀ e ∈ more, ∃ t, Built d e.2.1 t) →
+    (∀ e ∈ more, JWs e.1 ∧ JWs e.2.2) → (∀ e ∈ more, ∃ t, Built o key d e.2.1 t) →
     ∃ es : List JV, AtomsOKL es = true ∧ (∀ k ∈ toksL es, k.valid = true) ∧ depthOKL es d = true ∧
+      StrsOK o (toksL es) ∧ DupOK o (dupL key es) ∧
       ∀ (wprev : Bytes), JWs wprev → ∀ (R : List Lex) (X : Bytes), Layout R X →
         Layout (lexL false es ++ (.tok .ea :: R)) (wprev ++ (sepTail (more.map fun e => e.1 ++ e.2.1 ++ e.2.2) ++ (0x5D :: X))) := by
   intro more
   induction more with
   | nil =>
     intro _ _
-    refine ⟨[], rfl, by simp [toksL], rfl, ?_⟩
+    refine ⟨[], rfl, by simp [toksL], rfl, by intro raw hm; simp [toksL] at hm, Or.inr rfl, ?_⟩
     intro wprev hw R X h
     simpa [lexL, sepTail, Lex.bytes, Tok.bytes] using Layout.ws_append wprev hw (Layout.lex_cons (.tok .ea) h)
   | cons e more ih =>
     intro hws hb
-    obtain ⟨t, ht1, ht2, ht3, ht4⟩ := hb e (by simp)
-    obtain ⟨es, h1, h2, h3, h4⟩ := ih (fun x hx => hws x (List.mem_cons_of_mem _ hx)) (fun x hx => hb x (List.mem_cons_of_mem _ hx))
-    refine ⟨t :: es, by simp [AtomsOKL, ht1, h1], ?_, by simp [depthOKL, ht3, h3], ?_⟩
+    obtain ⟨t, ht1, ht2, ht3, hts, htd, ht4⟩ := hb e (by simp)
+    obtain ⟨es, h1, h2, h3, hs, hdp, h4⟩ := ih (fun x hx => hws x (List.mem_cons_of_mem _ hx)) (fun x hx => hb x (List.mem_cons_of_mem _ hx))
+    refine ⟨t :: es, by simp [AtomsOKL, ht1, h1], ?_, by simp [depthOKL, ht3, h3], ?_, DupOK.mk_and htd hdp, ?_⟩
     · intro k hk
       simp only [toksL, List.mem_append] at hk
       rcases hk with hk | hk
       · exact ht2 k hk
       · exact h2 k hk
+    · intro raw hk
+      simp only [toksL, List.mem_append] at hk
+      rcases hk with hk | hk
+      · exact hts raw hk
+      · exact hs raw hk
     · intro wprev hw R X h
       have hrec := h4 e.2.2 (hws e (by simp)).2 R X h
       have hval := ht4 _ _ hrec
@@ -61,30 +86,39 @@ theorem build_tailL (d : Nat) : ∀ (more : List (Bytes × Bytes × Bytes)),
       simpa [lexL, sepLex, sepTail, elemText, Lex.bytes, Delim.bytes, List.append_assoc] using this
 
 theorem build_tailM (d : Nat) : ∀ (more : List (Bytes × Bytes × Bytes × Bytes × Bytes × Bytes)),
-    (∀ m ∈ more, JWs m.1 ∧ JString false m.2.1 ∧ JWs m.2.2.1 ∧ JWs m.2.2.2.1 ∧ JWs m.2.2.2.2.2) →
-    (∀ m ∈ more, ∃ t, Built d m.2.2.2.2.1 t) →
+    (∀ m ∈ more, JWs m.1 ∧ JString o.strict m.2.1 ∧ JWs m.2.2.1 ∧ JWs m.2.2.2.1 ∧ JWs m.2.2.2.2.2) →
+    (∀ m ∈ more, ∃ t, Built o key d m.2.2.2.2.1 t) →
     ∃ ms : List (Bytes × JV), AtomsOKM ms = true ∧ (∀ k ∈ toksM ms, k.valid = true) ∧ depthOKM ms d = true ∧
+      StrsOK o (toksM ms) ∧ DupOK o (dupM key ms) ∧ ms.map Prod.fst = more.map (fun m => m.2.1) ∧
       ∀ (wprev : Bytes), JWs wprev → ∀ (R : List Lex) (X : Bytes), Layout R X →
         Layout (lexM false ms ++ (.tok .eo :: R)) (wprev ++ (sepTail (more.map fun m => m.1 ++ m.2.1 ++ m.2.2.1 ++ [0x3A] ++ m.2.2.2.1 ++ m.2.2.2.2.1 ++ m.2.2.2.2.2) ++ (0x7D :: X))) := by
   intro more
   induction more with
   | nil =>
     intro _ _
-    refine ⟨[], rfl, by simp [toksM], rfl, ?_⟩
+    refine ⟨[], rfl, by simp [toksM], rfl, by intro raw hm; simp [toksM] at hm, Or.inr rfl, rfl, ?_⟩
     intro wprev hw R X h
     simpa [lexM, sepTail, Lex.bytes, Tok.bytes] using Layout.ws_append wprev hw (Layout.lex_cons (.tok .eo) h)
   | cons m more ih =>
     intro hws hb
-    obtain ⟨t, ht1, ht2, ht3, ht4⟩ := hb m (by simp)
-    obtain ⟨ms, h1, h2, h3, h4⟩ := ih (fun x hx => hws x (List.mem_cons_of_mem _ hx)) (fun x hx => hb x (List.mem_cons_of_mem _ hx))
+    obtain ⟨t, ht1, ht2, ht3, hts, htd, ht4⟩ := hb m (by simp)
+    obtain ⟨ms, h1, h2, h3, hs, hdp, hnm, h4⟩ := ih (fun x hx => hws x (List.mem_cons_of_mem _ hx)) (fun x hx => hb x (List.mem_cons_of_mem _ hx))
     obtain ⟨hw1, hn, hw2, hw3, hw4⟩ := hws m (by simp)
-    refine ⟨(m.2.1, t) :: ms, by simp [AtomsOKM, ht1, h1], ?_, by simp [depthOKM, ht3, h3], ?_⟩
+    refine ⟨(m.2.1, t) :: ms, by simp [AtomsOKM, ht1, h1], ?_, by simp [depthOKM, ht3, h3], ?_, DupOK.mk_and htd hdp,
+      by simp [hnm], ?_⟩
     · intro k hk
       simp only [toksM, List.mem_cons, List.mem_append] at hk
       rcases hk with rfl | hk | hk
-      · exact (str_valid_iff _).mpr hn
+      · exact (str_valid_iff _).mpr (jstring_weaken hn)
       · exact ht2 k hk
       · exact h2 k hk
+    · intro raw hk
+      simp only [toksM, List.mem_cons, List.mem_append] at hk
+      rcases hk with hk | hk | hk
+      · have : raw = m.2.1 := by simpa using hk
+        subst this; exact hn
+      · exact hts raw hk
+      · exact hs raw hk
     · intro wprev hw R X h
       have hrec := h4 m.2.2.2.2.2 hw4 R X h
       have hval := Layout.ws_append m.2.2.2.1 hw3 (ht4 _ _ hrec)
@@ -94,21 +128,25 @@ theorem build_tailM (d : Nat) : ∀ (more : List (Bytes × Bytes × Bytes × Byt
       simpa [lexM, sepLex, sepTail, memText, Lex.bytes, Tok.bytes, Delim.bytes, List.append_assoc] using this
 
 /-- every value of the grammar is the layout of a tree -/
-theorem build_value (d : Nat) (v : Bytes) (h : JValue ⟨false, true⟩ maxDepth key d v) : ∃ t, Built d v t := by
+theorem build_value (d : Nat) (v : Bytes) (h : JValue o maxDepth key d v) : ∃ t, Built o key d v t := by
   induction h with
-  | null d => exact ⟨_, built_atom d .null rfl rfl⟩
-  | true d => exact ⟨_, built_atom d .tru rfl rfl⟩
-  | false d => exact ⟨_, built_atom d .fls rfl rfl⟩
+  | null d => exact ⟨_, built_atom o key d .null rfl rfl (by intro _ e; cases e)⟩
+  | true d => exact ⟨_, built_atom o key d .tru rfl rfl (by intro _ e; cases e)⟩
+  | false d => exact ⟨_, built_atom o key d .fls rfl rfl (by intro _ e; cases e)⟩
   | num d p hp =>
-    exact ⟨_, built_atom d (.num p) rfl (by simp [Tok.valid, (scanNum_iff' p).mpr hp])⟩
-  | str d p hp => exact ⟨_, built_atom d (.str p) rfl ((str_valid_iff p).mpr hp)⟩
+    exact ⟨_, built_atom o key d (.num p) rfl (by simp [Tok.valid, (scanNum_iff' p).mpr hp]) (by intro _ e; cases e)⟩
+  | str d p hp =>
+    exact ⟨_, built_atom o key d (.str p) rfl ((str_valid_iff p).mpr (jstring_weaken hp))
+      (by intro raw e; cases e; exact hp)⟩
   | emptyArr d w hd hw =>
-    refine ⟨.arr [], rfl, by simp [JV.toks, toksL, Tok.valid], by simp [depthOK, depthOKL, hd], ?_⟩
+    refine ⟨.arr [], rfl, by simp [JV.toks, toksL, Tok.valid], by simp [depthOK, depthOKL, hd],
+      by intro raw hm; simp [JV.toks, toksL] at hm, Or.inr rfl, ?_⟩
     intro R X h
     have := Layout.lex_cons (.tok .ba) (Layout.ws_append w hw (Layout.lex_cons (.tok .ea) h))
     simpa [lexT, lexL, Lex.bytes, Tok.bytes, List.append_assoc] using this
   | emptyObj d w hd hw =>
-    refine ⟨.obj [], rfl, by simp [JV.toks, toksM, Tok.valid], by simp [depthOK, depthOKM, hd], ?_⟩
+    refine ⟨.obj [], rfl, by simp [JV.toks, toksM, Tok.valid], by simp [depthOK, depthOKM, hd],
+      by intro raw hm; simp [JV.toks, toksM] at hm, Or.inr (by simp [dupT, dupM]), ?_⟩
     intro R X h
     have := Layout.lex_cons (.tok .bo) (Layout.ws_append w hw (Layout.lex_cons (.tok .eo) h))
     simpa [lexT, lexM, Lex.bytes, Tok.bytes, List.append_assoc] using this
@@ -116,10 +154,11 @@ theorem build_value (d : Nat) (v : Bytes) (h : JValue ⟨false, true⟩ maxDepth
     cases elems with
     | nil => exact absurd rfl hne
     | cons e more =>
-      obtain ⟨t, ht1, ht2, ht3, ht4⟩ := ih e (by simp)
-      obtain ⟨es, h1, h2, h3, h4⟩ := build_tailL (d + 1) more (fun x hx => hws x (List.mem_cons_of_mem _ hx))
+      obtain ⟨t, ht1, ht2, ht3, hts, htd, ht4⟩ := ih e (by simp)
+      obtain ⟨es, h1, h2, h3, hs, hdp, h4⟩ := build_tailL o key (d + 1) more (fun x hx => hws x (List.mem_cons_of_mem _ hx))
         (fun x hx => ih x (List.mem_cons_of_mem _ hx))
-      refine ⟨.arr (t :: es), by simp [AtomsOK, AtomsOKL, ht1, h1], ?_, by simp [depthOK, depthOKL, hd, ht3, h3], ?_⟩
+      refine ⟨.arr (t :: es), by simp [AtomsOK, AtomsOKL, ht1, h1], ?_, by simp [depthOK, depthOKL, hd, ht3, h3], ?_,
+        by simpa [dupT, dupL] using DupOK.mk_and htd hdp, ?_⟩
       · intro k hk
         simp only [JV.toks, toksL, List.mem_cons, List.mem_append, List.mem_singleton] at hk
         rcases hk with rfl | (hk | hk) | hk
@@ -128,30 +167,59 @@ theorem build_value (d : Nat) (v : Bytes) (h : JValue ⟨false, true⟩ maxDepth
         · exact h2 k hk
         · have : k = .ea := by simpa using hk
           subst this; rfl
+      · intro raw hk
+        simp only [JV.toks, toksL, List.mem_cons, List.mem_append, List.mem_singleton] at hk
+        rcases hk with hk | (hk | hk) | hk
+        · cases hk
+        · exact hts raw hk
+        · exact hs raw hk
+        · simp at hk
       · intro R X h
         have hrec := h4 e.2.2 (hws e (by simp)).2 R X h
         have hval := Layout.ws_append e.1 (hws e (by simp)).1 (ht4 _ _ hrec)
         have := Layout.lex_cons (.tok .ba) hval
         rw [List.map_cons, joinSep_cons]
         simpa [lexT, lexL, sepLex, elemText, Lex.bytes, Tok.bytes, List.append_assoc] using this
-  | obj d mems hd hne hws _ _ ih =>
+  | obj d mems hd hne hws _ hdup ih =>
     cases mems with
     | nil => exact absurd rfl hne
     | cons m more =>
-      obtain ⟨t, ht1, ht2, ht3, ht4⟩ := ih m (by simp)
-      obtain ⟨ms, h1, h2, h3, h4⟩ := build_tailM (d + 1) more (fun x hx => hws x (List.mem_cons_of_mem _ hx))
+      obtain ⟨t, ht1, ht2, ht3, hts, htd, ht4⟩ := ih m (by simp)
+      obtain ⟨ms, h1, h2, h3, hs, hdp, hnm, h4⟩ := build_tailM o key (d + 1) more (fun x hx => hws x (List.mem_cons_of_mem _ hx))
         (fun x hx => ih x (List.mem_cons_of_mem _ hx))
       obtain ⟨hw1, hn, hw2, hw3, hw4⟩ := hws m (by simp)
-      refine ⟨.obj ((m.2.1, t) :: ms), by simp [AtomsOK, AtomsOKM, ht1, h1], ?_, by simp [depthOK, depthOKM, hd, ht3, h3], ?_⟩
+      have hnodup : DupOK o (decide ((((m.2.1, t) :: ms).map fun p => key p.1).Nodup)) := by
+        rcases hdup with hdup | hdup
+        · exact Or.inl hdup
+        · right
+          have e : (((m.2.1, t) :: ms).map fun p => key p.1) = ((m :: more).map fun m => key m.2.1) := by
+            have := congrArg (List.map key) hnm
+            rw [List.map_map, List.map_map] at this
+            simp only [List.map_cons]
+            exact congrArg _ this
+          rw [e]; simpa using hdup
+      refine ⟨.obj ((m.2.1, t) :: ms), by simp [AtomsOK, AtomsOKM, ht1, h1], ?_, by simp [depthOK, depthOKM, hd, ht3, h3], ?_,
+        ?_, ?_⟩
       · intro k hk
         simp only [JV.toks, toksM, List.mem_cons, List.mem_append, List.mem_singleton] at hk
         rcases hk with rfl | (rfl | hk | hk) | hk
         · rfl
-        · exact (str_valid_iff _).mpr hn
+        · exact (str_valid_iff _).mpr (jstring_weaken hn)
         · exact ht2 k hk
         · exact h2 k hk
         · have : k = .eo := by simpa using hk
           subst this; rfl
+      · intro raw hk
+        simp only [JV.toks, toksM, List.mem_cons, List.mem_append, List.mem_singleton] at hk
+        rcases hk with hk | (hk | hk | hk) | hk
+        · cases hk
+        · have : raw = m.2.1 := by simpa using hk
+          subst this; exact hn
+        · exact hts raw hk
+        · exact hs raw hk
+        · simp at hk
+      · have := DupOK.mk_and hnodup (DupOK.mk_and htd hdp)
+        simpa [dupT, dupM] using this
       · intro R X h
         have hrec := h4 m.2.2.2.2.2 hw4 R X h
         have hval := Layout.ws_append m.2.2.2.1 hw3 (ht4 _ _ hrec)
@@ -161,11 +229,13 @@ theorem build_value (d : Nat) (v : Bytes) (h : JValue ⟨false, true⟩ maxDepth
         rw [List.map_cons, joinSep_cons]
         simpa [lexT, lexM, sepLex, memText, Lex.bytes, Tok.bytes, Delim.bytes, List.append_assoc] using this
 
-/-- **JText ⇒ tokenize**: every text of the C01 grammar (permissive) is accepted by the tokenizer. -/
-theorem text_tokenize (b : Bytes) (h : JText ⟨false, true⟩ maxDepth key b) : ∃ ts, tokenize b = some ts := by
+/-- every text of the grammar is tokenized to the tokens of a tree with the strings of the selected mode and names
+passing the duplicate test -/
+theorem text_tokenize_gen (b : Bytes) (h : JText o maxDepth key b) :
+    ∃ t : JV, tokenize b = some t.toks ∧ AtomsOK t = true ∧ StrsOK o t.toks ∧ DupOK o (dupT key t) := by
   obtain ⟨w1, v, w2, hw1, hv, hw2, rfl⟩ := h
-  obtain ⟨t, ht1, ht2, ht3, ht4⟩ := build_value key 0 v hv
-  refine ⟨t.toks, (tokenize_iff_layout' _ _).mpr ⟨⟨ht2, by rw [accepts_tree t ht1]; exact ht3⟩, ?_⟩⟩
+  obtain ⟨t, ht1, ht2, ht3, hts, htd, ht4⟩ := build_value o key 0 v hv
+  refine ⟨t, (tokenize_iff_layout' _ _).mpr ⟨⟨ht2, by rw [accepts_tree t ht1]; exact ht3⟩, ?_⟩, ht1, hts, htd⟩
   have hp : punct [.top0] t.toks = lexT t := by
     have := punctV t ht1 .top0 .top1 none [] [] (by simp [Fr.value]) (by simpa using ht3)
     simpa [delimLex, punct] using this
@@ -174,5 +244,11 @@ theorem text_tokenize (b : Bytes) (h : JText ⟨false, true⟩ maxDepth key b) :
   simpa [List.append_assoc] using this
 
 end
+
+/-- **JText ⇒ tokenize**: every text of the C01 grammar (permissive) is accepted by the tokenizer. -/
+theorem text_tokenize (key : Bytes → Bytes) (b : Bytes) (h : JText ⟨false, true⟩ maxDepth key b) :
+    ∃ ts, tokenize b = some ts := by
+  obtain ⟨t, ht, _⟩ := text_tokenize_gen ⟨false, true⟩ key b h
+  exact ⟨_, ht⟩
 
 end JsonV.Fmt
